@@ -19,6 +19,10 @@ CHECKS = {
    "stateless model checking under a controlled scheduler with cancellation / fake-clock expiry as scheduler choices, delay-bounded exhaustive enumeration of the cancellation instant",
    "The cancel() call (thread ~x) or the deadline expiry (fake clock of the synctest bubble, event ~clock) is placed at every yield point of every client program - before the call, between operations, and while a Send or Receive is blocked - against handlers that wait for ctx.Done and return ctx.Err. Every operation that fails after the event must carry canceled / deadline_exceeded (Send may return the io.EOF stream-closed error), Send/Receive started afterwards never succeed, the handler's context is cancelled, no goroutine is left. A sequential family checks that handlers returning bare or wrapped context errors convey the same code.",
    "memhttp's cancellation behaviour mirrors net/http's documented contract; transports whose abort error does not wrap the context error are out of scope; delay bound 1 (the event itself) in quick, 2 in thorough"),
+ "C13": ("model_checking", "DESIGN.md 4/C13",
+   "stateless model checking of concurrent calls on one shared Client/Handler under a controlled scheduler with deterministic poisoned buffer pools, delay-bounded exhaustive schedule enumeration, differential oracle against solo runs",
+   "Two (one scenario: three) threads run complete calls with call-tagged payloads on a single shared Client and Handler whose sync.Pools are replaced by deterministic LIFO stacks that poison released buffers, so any sharing of scratch state, use-after-Put or cross-call mix-up becomes a deterministic observable difference; plus sender||receiver on one bidi stream. Every schedule within the delay bound over ~300 yield points per execution (every statement of the duplex call, every pool/compressor/codec/IO operation, every membrane event) is executed; each call must observe exactly what it observes alone, no poisoned byte may be visible, retained values must stay intact.",
+   "sequentially consistent, statement-granular interleavings only: the clause 'no unsynchronised memory access' is decided only as far as such interleavings make a difference observable; a free-running -race pass is supplementary; delay bound 1 quick / 2 thorough"),
 }
 
 PENDING = {
